@@ -682,6 +682,15 @@ P("vc_set_index_filter_direct_index", lambda t: (lambda x: x[x.index.to_series()
 P("vc_sort_filter_index", lambda t: (lambda x: x[x.a.index.to_series() != x.a.index.to_series().min()])(t.df.sort_values("f")), tags={"valuechange", "sort"}, order_free=True)
 
 
+# rules of the second simplify pass re-introduce logical Head/Tail nodes: they must be lowered again before fusion
+P("repart_same_proj_tail", lambda t: t.df.repartition(npartitions=t.df.npartitions)[["u"]].tail(2, compute=False) if t.lazy else t.df[["u"]].tail(2), tags={"head"}, dask_only=True)
+P("repart_same_proj_head", lambda t: t.df.repartition(npartitions=t.df.npartitions)[["u"]].head(2, compute=False) if t.lazy else t.df[["u"]].head(2), tags={"head"}, dask_only=True)
+P("elemwise_repart_divisions_proj_tail", lambda t: (t.df[["u", "a"]] + 1).repartition(divisions=list(t.df.divisions))[["u"]].tail(2, compute=False) if t.lazy else (t.df[["u", "a"]] + 1)[["u"]].tail(2), tags={"head"}, dask_only=True, needs_known=True)
+P("loc_single_partition_then_op", lambda t: (t.df[["u", "f"]] + 1).loc[5:7].u * 2, needs_known=True, needs_range=True)
+P("loc_list_single_partition_binop", lambda t: t.df.loc[[8, 9]].u + t.df.loc[[8, 9]].f, needs_known=True, needs_range=True)
+P("loc_scalar_row_minus", lambda t: t.df.loc[7:7].u - 1, needs_known=True, needs_range=True)
+
+
 def program_names(tags_exclude=()):
     return [n for n, p in PROGRAMS.items() if not (p.tags & set(tags_exclude))]
 
